@@ -421,12 +421,17 @@ class spec_class:
                             # old name must not shadow the scalar helpers of the
                             # (also inherited) attribute of that name.
                             respecified_inherited.append(other.name)
+                    # If the item preparer was found by name under the colliding
+                    # name, it is the *other* attribute's preparer; look again
+                    # under the new name. (A preparer registered explicitly,
+                    # e.g. with `@<attr>.item_preparer`, stays.)
+                    misnamed = getattr(spec_cls, f"_prepare_{attr_spec.item_name}", None)
                     attr_spec.item_name = f"{attr}_item"
-                    # The item preparer was looked up under the colliding name
-                    # (where it finds the other attribute's preparer, if any).
-                    attr_spec.prepare_item = getattr(
-                        spec_cls, f"_prepare_{attr_spec.item_name}", None
-                    )
+                    if misnamed is not None and attr_spec.prepare_item is misnamed:
+                        attr_spec.prepare_item = None
+                    renamed = getattr(spec_cls, f"_prepare_{attr_spec.item_name}", None)
+                    if renamed is not None:
+                        attr_spec.prepare_item = renamed
                 else:
                     raise RuntimeError(
                         f"`{spec_class.__name__}.{attr}`'s singular name '{attr_spec.item_name}' "
